@@ -424,6 +424,9 @@ func runC18(p *plan.Plan, keepLog bool, soloOnly bool) (*plan.Result, *C18Stats)
 	// Solo phase: every task's program alone, on this goroutine. It gives the
 	// specification of each call (its solo outcome) and the local step indices.
 	solo := func() (ok bool, abort bool) {
+		// a call that the simulator itself abandoned earlier in this run (step
+		// budget) may have left locks held: nothing after it gives a verdict
+		wasUnwound := peekUnwound()
 		setMode(modeCount)
 		sRecordHot = true
 		defer func() { sRecordHot = false; setMode(modeOff) }()
@@ -445,7 +448,7 @@ func runC18(p *plan.Plan, keepLog bool, soloOnly bool) (*plan.Result, *C18Stats)
 				beginOp(soloOpCap)
 				o := Exec(def, &a)
 				n := opSteps()
-				if o.Deadlock {
+				if o.Deadlock && !wasUnwound {
 					// run alone, the call waits for a lock nobody holds any more: an
 					// earlier call (of this process) left it locked
 					addViol(plan.Violation{Property: "C18", Class: "C18/deadlock", Key: "lock-left-held", Task: ti, Step: si,
@@ -580,6 +583,13 @@ func runC18(p *plan.Plan, keepLog bool, soloOnly bool) (*plan.Result, *C18Stats)
 		hung := false
 		for _, tr := range runs {
 			hung = hung || tr.hung
+		}
+		if hung && !deadlocked() {
+			// without a baseline the budget is absolute; a call that exceeds it was
+			// abandoned by the simulator and what follows in this process gives no
+			// verdict (the ordinary jobs, which know each call's solo length, decide
+			// hangs)
+			return skipped()
 		}
 		sw, steps := stats.Switches, stats.Steps
 		evh := sEvHash
